@@ -128,6 +128,19 @@ def check_tissue(t, cm, ans, model):
             i = bad[0]
             fails.append("contact force on node %d of cell %d after run() is %r, the same rule applied to all node-face pairs gives %r (%d components differ)" % (
                 nodes[i // 3][1], nodes[i // 3][0], unhex(s["F"][i]), unhex(s["R"][i]), len(bad)))
+        if cm == 1:
+            # the tail of resolve_all_contacts removes the one-sided couplings the search leaves behind (a node keeps its
+            # coupling iff its partner names it back: C03.symmetrise_spec); the reference applies the rule only
+            where = {(nodes[i][0], nodes[i][1]): i for i in range(len(nodes))}
+            raw = list(s["RK"])
+            def back(i):
+                if raw[i] == "-":
+                    return True
+                c2, n2 = (int(x) for x in raw[i].split(":")[:2])
+                j = where.get((c2, n2))
+                return j is not None and raw[j] != "-" and tuple(int(x) for x in raw[j].split(":")[:2]) == (nodes[i][0], nodes[i][1])
+            s["RK"] = [raw[i] if back(i) else "-" for i in range(len(raw))]
+            st["one_sided_couplings_removed"] = sum(1 for i in range(len(raw)) if raw[i] != s["RK"][i])
         if s["K"] != s["RK"]:
             k = [i for i in range(min(len(s["K"]), len(s["RK"]))) if s["K"][i] != s["RK"][i]]
             fails.append("couplings after run() differ from those of the all-pairs reference at %d nodes (first: node %d of cell %d: %s vs %s)" % (
